@@ -218,7 +218,7 @@ def check(run: Run, lean: dict) -> int:
     ok = lean.get("driver_ok", True) and lean.get("clone_cmd", True)
     rows = []
     for _ in range(n):
-        run_one(run, "generated", run.rng.choice(DOCS), None, run.rng.randint(0, 10), rows)
+        run_one(run, "generated", E.pick_doc(run.rng, DOCS), None, run.rng.randint(0, 10), rows)
     for _ in range(n // 3):
         document_clone(run, "document")
     if ok:
@@ -229,7 +229,7 @@ def check(run: Run, lean: dict) -> int:
 def search(run: Run):
     probe = Run(run.prop, run.tier, run.seed)
     for _ in range(1500):
-        run_one(probe, "search", probe.rng.choice(DOCS), None, probe.rng.randint(0, 12), [])
+        run_one(probe, "search", E.pick_doc(probe.rng, DOCS), None, probe.rng.randint(0, 12), [])
         document_clone(probe, "search")
         if probe.violations:
             return [probe.violations[0]]
@@ -240,5 +240,5 @@ def replay(payload: dict) -> int:
     print(json.dumps(payload.get("failing", [])[:1], ensure_ascii=False)[:2000])
     probe = Run("C10", "quick", payload.get("seed", 0))
     for _ in range(300):
-        run_one(probe, "replay", probe.rng.choice(DOCS), None, probe.rng.randint(0, 10), [])
+        run_one(probe, "replay", E.pick_doc(probe.rng, DOCS), None, probe.rng.randint(0, 10), [])
     return 1 if probe.violations else 0
